@@ -49,7 +49,7 @@ def functions():
 def bounds(tier, prop):
     return {"add_to_path": "paths of 0..3 frames, symbolic integer limit 1..5",
             "LAMMPS loop": "<= 4 frames produced (5 thorough), <= 2 per poll, process exit after 0..3 polls, return code 0/1, "
-                           "length limit symbolic 2..5", "outside": "longer runs; other engines' loops"}
+                           "length limit symbolic 2..frames+1", "outside": "longer runs; other engines' loops"}
 
 
 def instances(tier, prop):
@@ -247,7 +247,7 @@ def _lammps(ctx, sh):
     F, reverse, rc = sh["F"], sh["reverse"], sh["rc"]
     left, right = ctx.real("left"), ctx.real("right")
     ctx.assume(ctx.rel(left, "<", right))
-    maxlen = ctx.int("maxlen", 2, 5)
+    maxlen = ctx.int("maxlen", 2, sh["F"] + 1)
     world = {"F": F, "delivered": 0, "alive_polls": ctx.choice(6, "alive-polls"), "rc": rc, "exited": False, "killed": False,
              "waited": 0, "calls": [], "kills": 0, "alive_at_kill": None}
     e = ilmp.LAMMPSEngine.__new__(ilmp.LAMMPSEngine)
@@ -339,7 +339,7 @@ def _lammps(ctx, sh):
     n = path.length
     # which frame should have stopped the propagation?
     stop_at = None
-    for k in range(min(F, 5)):
+    for k in range(F):
         o = ctx.real(f"ord{k}")
         if (o < left) or (o > right) or (k + 1 == maxlen):
             stop_at = k
@@ -419,7 +419,7 @@ def _cp2k(ctx, sh):
     F, reverse, rc = sh["F"], sh["reverse"], sh["rc"]
     left, right = ctx.real("left"), ctx.real("right")
     ctx.assume(ctx.rel(left, "<", right))
-    maxlen = ctx.int("maxlen", 2, 5)
+    maxlen = ctx.int("maxlen", 2, sh["F"] + 1)
     world = {"F": F, "delivered_pos": 0, "delivered_vel": 0, "alive_polls": ctx.choice(6, "alive-polls"), "rc": rc,
              "exited": False, "killed": False, "waited": 0, "calls": [], "kills": 0, "alive_at_kill": None, "written": []}
     e = icp2k.CP2KEngine.__new__(icp2k.CP2KEngine)
@@ -543,7 +543,7 @@ def _gromacs(ctx, sh):
     F, reverse = sh["F"], sh["reverse"]
     left, right = ctx.real("left"), ctx.real("right")
     ctx.assume(ctx.rel(left, "<", right))
-    maxlen = ctx.int("maxlen", 2, 5)
+    maxlen = ctx.int("maxlen", 2, sh["F"] + 1)
     world = {"calls": [], "closed": 0, "yielded": 0}
     e = igmx.GromacsEngine.__new__(igmx.GromacsEngine)
     e._exe_dir = "/exe"
